@@ -116,6 +116,8 @@ func c10FromIP(ip net.IP) uint32 {
 func c10MAC(m uint64, n int) net.HardwareAddr {
 	if n == 0 {
 		n = 6
+	} else if n < 0 {
+		return net.HardwareAddr{}
 	}
 	h := make(net.HardwareAddr, n)
 	for i := 0; i < n && i < 8; i++ {
@@ -750,6 +752,16 @@ func (g *c10Gen) host() string {
 	return vfPick(g.r, c10Hosts)
 }
 
+// longMAC: now and then a reservation is for a client with an 8- or 20-byte
+// hardware address, or one of a length ValidateMAC refuses.  (Such clients
+// send no messages in the random histories.)
+func (g *c10Gen) longMAC(o *c10Op) {
+	if g.r.Chance(1, 5) {
+		k := g.r.Intn(3)
+		o.Mac, o.MacLen = uint64(5+k), []int{8, 20, 7}[k]
+	}
+}
+
 func (g *c10Gen) ipFor(mac uint64) uint32 {
 	if ip, ok := g.last[mac]; ok && g.r.Chance(4, 5) {
 		return ip
@@ -813,13 +825,16 @@ func (g *c10Gen) op() (o c10Op) {
 		}
 	case x < 78:
 		o.Kind = c10StaticAdd
+		g.longMAC(&o)
 		o.IP, o.Host = g.anyIP(), g.host()
 	case x < 83:
 		o.Kind = c10StaticUpdate
+		g.longMAC(&o)
 		o.IP, o.Host = g.anyIP(), g.host()
 	case x < 88:
 		o.Kind = c10StaticRemove
-		o.IP, o.Host = g.ipFor(mac), g.host()
+		g.longMAC(&o)
+		o.IP, o.Host = g.ipFor(o.Mac), g.host()
 	case x < 92 || (x < 95 && !g.probe):
 		o.Kind = c10Tick
 		o.Mac = 0
@@ -1221,6 +1236,21 @@ func c10Run(t *testing.T, out *vfOut, h c10History) {
 				cl += "-existing"
 			case freeBefore == 0:
 				cl += "-recycled"
+				for _, l := range before {
+					if l.IP == r.YI {
+						switch {
+						case l.Zero:
+							classes["recycled-blocklist-entry"] = true
+						case l.Host == "":
+							classes["recycled-unacked-offer"] = true
+						default:
+							classes["recycled-expired-lease"] = true
+						}
+						if len(before) > 0 && before[0].IP != r.YI {
+							classes["recycled-not-first-in-table"] = true
+						}
+					}
+				}
 			default:
 				cl += "-new"
 			}
@@ -1234,6 +1264,39 @@ func c10Run(t *testing.T, out *vfOut, h c10History) {
 			cl += "-" + mode + map[int]string{1: "-ack", 0: "-nak", -1: "-drop"}[r.Code]
 			if r.Code == 1 && staticIP != 0 {
 				classes["request-static"] = true
+			}
+			// Why: which of the conditions of RFC 2131 4.3.2 decided.
+			{
+				var mine *c10Lease
+				for k := range before {
+					if before[k].Mac == omac && mine == nil {
+						mine = &before[k]
+					}
+				}
+				asked := o.CIAddr
+				if mode != "renew" {
+					asked = o.ReqIP
+				}
+				why := "ok"
+				switch {
+				case mode == "selecting" && o.SID != cf.Self:
+					why = "other-server"
+				case mode != "renew" && o.CIAddr != 0:
+					why = "ciaddr-set"
+				case mode == "selecting" && !o.HasReq:
+					why = "no-requested-address"
+				case mode == "renew" && o.CIAddr == 0:
+					why = "no-ciaddr"
+				case mode == "initreboot" && (asked < cf.SubLo || asked > cf.SubHi):
+					why = "wrong-subnet"
+				case mine == nil:
+					why = "no-lease"
+				case mine.IP != asked:
+					why = "other-address"
+				case mine.Kind == 2:
+					why = "ok-expired-lease"
+				}
+				classes["request-"+mode+"-"+why] = true
 			}
 		case c10Decline, c10Release:
 			switch {
@@ -1668,6 +1731,15 @@ func c10Prelude(m []uint64) (hs []c10History) {
 			disc(1), sel(1, s, n[0]), disc(2), sel(2, s+1, n[1]), disc(3), sel(3, s+2, n[2]), renew(1, s, n[1]), renew(2, s+1, n[2]),
 			st(c10StaticAdd, 4, cf.End+2, n[0]), st(c10StaticUpdate, 4, cf.End+3, n[1]), st(c10StaticAdd, 4, cf.End+4, n[2]), restart}})
 	}
+	long := func(o c10Op, n int) c10Op { o.MacLen = n; return o }
+	add("static-long-hwaddr", long(st(c10StaticAdd, 5, cf.End+2, "eui"), 8), long(st(c10StaticAdd, 6, cf.End+3, "ib"), 20),
+		long(st(c10StaticAdd, 7, cf.End+4, "bad"), 7), long(st(c10StaticAdd, 7, cf.End+4, "empty"), -1), long(disc(5), 8),
+		long(sel(5, cf.End+2, "x"), 8), disc(1), restart,
+		long(st(c10StaticUpdate, 6, cf.End+4, "ib2"), 20), long(st(c10StaticUpdate, 5, s, "eui"), 8), long(disc(5), 8),
+		long(st(c10StaticRemove, 7, cf.End+4, "ib2"), 7), long(st(c10StaticRemove, 6, cf.End+4, "ib2"), 20),
+		long(st(c10StaticRemove, 5, s, "eui"), 8), restart)
+	add("request-on-expired-lease", disc(1), sel(1, s, "a"), tick(3700), renew(1, s, "a"), tick(3700), reboot(1, s), tick(3700),
+		sel(1, s, "a"), tick(3700), disc(2), disc(3), disc(4), sel(4, s, "d"), renew(1, s, "a"))
 	setc := func(a, b uint32) c10Op { return c10Op{Kind: c10SetConfig, PoolStart: a, PoolEnd: b} }
 	add("set-config", disc(1), sel(1, s, "alpha"), st(c10StaticAdd, 2, cf.End+3, "nas"), disc(3), sel(3, s+1, "gamma"),
 		setc(s, cf.End), renew(1, s, "alpha"), setc(s+1, cf.End+2), disc(1), sel(1, s+2, "alpha"), disc(4),
